@@ -20,6 +20,7 @@ import (
 	"strings"
 	"time"
 
+	"github.com/Ptt-official-app/go-pttbbs/bbs"
 	"github.com/Ptt-official-app/go-pttbbs/cache"
 	"github.com/Ptt-official-app/go-pttbbs/ptt"
 	"github.com/Ptt-official-app/go-pttbbs/ptttype"
@@ -536,6 +537,8 @@ func parseInt(s string) (int, bool) {
 	return v, true
 }
 
+var reName = regexp.MustCompile(`^(-|([0-9a-fA-F]{2}){1,24})$`)
+
 var reHexID = regexp.MustCompile(`^[0-9a-fA-F]{26}$`)
 
 func parseID(s string) (ID, bool) {
@@ -658,6 +661,60 @@ func step(line string, label string) (out string, idx int) {
 			label = "lookupall"
 		}
 		post = func(i int) { judgeLookupAll(i, res) }
+	case op == "exists" && len(ws) == 2 && reName.MatchString(ws[1]):
+		// bbs.CheckExistsUser: the lookup as the api layer does it, with an id of ANY length (UUserID.ToRaw in front)
+		name := hx.UnHex(ws[1])
+		withDump = false
+		res = call(func() string {
+			u, err := bbs.CheckExistsUser(string(name))
+			switch {
+			case err == bbs.ErrInvalidParams:
+				return "invalid"
+			case err != nil:
+				return "err"
+			case u == "":
+				return "none"
+			}
+			return "found"
+		})
+		// expectation from a linear scan with a whole-string, case-insensitive comparison
+		linked, nul := 0, false
+		for _, b := range name {
+			if b == 0 {
+				nul = true
+			}
+		}
+		for k := 0; k < MAX; k++ {
+			c := cstrOf(&cache.Shm.Shm.Userid[k])
+			if len(c) == len(name) && len(c) > 0 && !detached[k] {
+				same := true
+				for i := range c {
+					if up(c[i]) != up(name[i]) {
+						same = false
+					}
+				}
+				if same {
+					linked++
+				}
+			}
+		}
+		if label == "" {
+			label = fmt.Sprintf("exists:%s-len%d", res, min(len(name), 14))
+		}
+		post = func(i int) {
+			if nul {
+				return
+			}
+			if res == "found" && linked == 0 {
+				fail(i, "lookup:bbs-absent-found", fmt.Sprintf("CheckExistsUser(%q) = found, but no slot holds that id (a lookup must be for the id that was asked for)", name))
+			} else if res != "found" && linked > 0 {
+				var id ID
+				copy(id[:], name)
+				if len(name) <= int(ptttype.IDLEN) && id.IsValid() {
+					fail(i, "lookup:wrong-slot", fmt.Sprintf("CheckExistsUser(%q) = %s, but a slot holds it", name, res))
+				}
+			}
+		}
 	case op == "expire" && len(ws) == 2:
 		// age record k of .PASSWDS (LastLogin = 1970): ptt.tryCleanUser will kill it. No effect on the index.
 		k, ok := parseInt(ws[1])
